@@ -269,46 +269,49 @@ func main() {
 
 	// cmd/pint sites (same detection as core genDropped)
 	rows = nil
-	sub := "cmd/pint"
-	p := loadPkg(filepath.Join(*srcDir, sub))
-	for _, fn := range p.names {
-		for _, d := range p.files[fn].Decls {
-			fd, ok := d.(*ast.FuncDecl)
-			if !ok || fd.Body == nil {
-				continue
-			}
-			ast.Inspect(fd.Body, func(n ast.Node) bool {
-				switch s := n.(type) {
-				case *ast.AssignStmt:
-					if len(s.Lhs) == 2 && len(s.Rhs) == 1 {
-						if id, ok := s.Lhs[1].(*ast.Ident); ok && id.Name == "_" {
-							if ce, ok := s.Rhs[0].(*ast.CallExpr); ok {
-								rows = append(rows, fmt.Sprintf("{| ds_file := %s; ds_func := %s; ds_kind := \"dropped\"; ds_callee := %s; ds_args := %s |}",
-									cs(sub+"/"+fn), cs(fd.Name.Name), cs(oneLine(src(ce.Fun))), cs(oneLine(argsSrc(ce)))))
-							}
-						}
-					}
-				case *ast.CallExpr:
-					fnm := oneLine(src(s.Fun))
-					base := fnm
-					if i := strings.LastIndex(base, "."); i >= 0 {
-						base = base[i+1:]
-					}
-					if strings.HasPrefix(base, "Must") && fd.Name.Name != base {
-						allConst := true
-						for _, a := range s.Args {
-							if _, ok := a.(*ast.BasicLit); !ok {
-								allConst = false
-							}
-						}
-						if !allConst {
-							rows = append(rows, fmt.Sprintf("{| ds_file := %s; ds_func := %s; ds_kind := \"must\"; ds_callee := %s; ds_args := %s |}",
-								cs(sub+"/"+fn), cs(fd.Name.Name), cs(fnm), cs(oneLine(argsSrc(s)))))
-						}
-					}
+	// cmd/pint, and the packages configuration values are handed to: internal/promapi (upstream URIs, headers, timeouts),
+	// internal/discovery
+	for _, sub := range []string{"cmd/pint", "internal/promapi", "internal/discovery"} {
+		p := loadPkg(filepath.Join(*srcDir, sub))
+		for _, fn := range p.names {
+			for _, d := range p.files[fn].Decls {
+				fd, ok := d.(*ast.FuncDecl)
+				if !ok || fd.Body == nil {
+					continue
 				}
-				return true
-			})
+				ast.Inspect(fd.Body, func(n ast.Node) bool {
+					switch s := n.(type) {
+					case *ast.AssignStmt:
+						if len(s.Lhs) == 2 && len(s.Rhs) == 1 {
+							if id, ok := s.Lhs[1].(*ast.Ident); ok && id.Name == "_" {
+								if ce, ok := s.Rhs[0].(*ast.CallExpr); ok {
+									rows = append(rows, fmt.Sprintf("{| ds_file := %s; ds_func := %s; ds_kind := \"dropped\"; ds_callee := %s; ds_args := %s |}",
+										cs(sub+"/"+fn), cs(fd.Name.Name), cs(oneLine(src(ce.Fun))), cs(oneLine(argsSrc(ce)))))
+								}
+							}
+						}
+					case *ast.CallExpr:
+						fnm := oneLine(src(s.Fun))
+						base := fnm
+						if i := strings.LastIndex(base, "."); i >= 0 {
+							base = base[i+1:]
+						}
+						if strings.HasPrefix(base, "Must") && fd.Name.Name != base {
+							allConst := true
+							for _, a := range s.Args {
+								if _, ok := a.(*ast.BasicLit); !ok {
+									allConst = false
+								}
+							}
+							if !allConst {
+								rows = append(rows, fmt.Sprintf("{| ds_file := %s; ds_func := %s; ds_kind := \"must\"; ds_callee := %s; ds_args := %s |}",
+									cs(sub+"/"+fn), cs(fd.Name.Name), cs(fnm), cs(oneLine(argsSrc(s)))))
+							}
+						}
+					}
+					return true
+				})
+			}
 		}
 	}
 	o.def("extra_sites", "list dropped_site", "[\n   "+strings.Join(rows, ";\n   ")+"\n  ]")
